@@ -73,8 +73,10 @@ META = {
     "trusted_base": TRUSTED,
     "assumptions": [
         "Low-Latency variant; ids below 2^64-2 (in_range); rotations never fail (no storage error injection)",
-        "the property is read with the design's one-segment tolerance: the head of the window counts as expired",
-        "the progress and preload-hint theorems are stated for the Low-Latency variant (path-table invariant hint_prop)",
+        "the 400 the code gives for the HEAD of the window (first listed segment) is the recorded finding F28 "
+        "(signature C06:400:head-of-window:listed-segment-rejected, known_findings.json), every other unjustified 400 alarms",
+        "the progress theorems' path-table hypothesis hint_prop is proved reachable for all three variants; they start "
+        "from a free mutex and a writer goroutine that has not panicked; in_range (ids below 2^64-2) is an assumption",
     ],
 }
 
